@@ -208,6 +208,9 @@ class WeightModel:
                 if not stale:
                     return True, "guarded in %s by %s" % (fn.name, sorted({a[3] for a in atoms}))
                 return False, "an increase-capable call lies between the space check and the increase in %s at %s" % (fn.name, [fn.where(b) for b in stale])
+        ok_sym, why_sym = self.guarded_site_sym(fn, C, X)
+        if ok_sym:
+            return True, why_sym
         only_params = not mentions(X, lambda s: s[0] in ("call", "var", "unknown", "env", "upvar", "built", "phi"))
         if only_params and depth < 8:
             cs = self.callers(fn.name)
@@ -221,6 +224,62 @@ class WeightModel:
                     return False, why
             return True, "guarded in every caller of %s" % fn.name
         return False, "no space check for the added amount %s on the paths to the increase in %s" % (fmt(X), fn.name)
+
+
+def _guarded_site_sym(self, fn, C, X):
+    """path-sensitive form of the guard rule: on every symbolic path of fn that reaches the increase at block C
+    (helpers inlined; increase-capable functions, the space query and status-returning functions opaque) an atom
+    establishing `available >= X` precedes it with no increase-capable call in between"""
+    from sym import ipaths
+    F = self.F
+    status = {n for n, g in F.fns.items() if g.rec.get("ret", "").endswith("CommandStatus")}
+    stop = lambda n: n in self.inc_defs or n in self.qnames or n in status
+    paths = ipaths(F, fn, stop=stop, depth=2)
+    n_through = 0
+    for p in paths:
+        pos = None
+        for e in p.events:
+            if e.fn is fn and e.bb == C:
+                pos = e.seq
+        if pos is None:
+            for tgt, val, w in p.stores:
+                if w[0] is fn and w[1] == C:
+                    pos = w[3] if len(w) > 3 else None
+        if pos is None:
+            continue
+        n_through += 1
+        good = None
+        for a in p.atoms:
+            if a[4] >= pos:
+                continue
+            src = None
+            if a[0] == "bool":
+                e = a[1]
+                q = self.is_query_field(e, X, "1")
+                if q and a[2]:
+                    src = a[4]
+                elif e[0] == "binop" and e[1] == "Lt" and strip_site(e[3]) == strip_site(X) and not a[2] and self.avail_ok(fn, e[2], X) is not None:
+                    src = a[4]
+                elif e[0] == "binop" and e[1] == "Le" and strip_site(e[2]) == strip_site(X) and a[2] and self.avail_ok(fn, e[3], X) is not None:
+                    src = a[4]
+            elif a[0] == "enum" and a[2] == ("Accepted",) and a[1][0] == "call" and a[1][1] in F.fns:
+                H = F.fns[a[1][1]]
+                WH = abstract_args(X, a[1][2])
+                if WH is not None and self.admits(H, WH):
+                    src = a[4]
+            if src is None:
+                continue
+            between = [e for e in p.events if src < e.seq < pos and e.callee in self.inc_defs and not (e.fn is fn and e.bb == C)]
+            # the admitting call itself precedes its own atom; an increase between the query call and the atom counts too
+            if not between:
+                good = a
+        if good is None:
+            return False, "a path reaches the increase in %s without a preceding space check for %s (%s)" % (fn.name, fmt(X), p.show())
+    if n_through:
+        return True, "guarded on each of the %d symbolic paths of %s reaching the increase" % (n_through, fn.name)
+    return False, "no symbolic path of %s reaches the increase" % fn.name
+
+
 
 
 def classify_write(rv, guard_call):
@@ -314,3 +373,6 @@ def accounting_flow(ctx, M, RULE):
                   "delete: the amount subtracted is the weight recorded in the entry just removed from the weight map by the same id",
                   f.where(s["bb"], s["idx"]), "amount=%s" % fmt(X))
 
+
+
+WeightModel.guarded_site_sym = _guarded_site_sym
